@@ -61,12 +61,13 @@ static rc::Gen<cw::W> tableW() {
       std::vector<pw::ChunkSpec> rg; std::vector<std::vector<int>> pc; std::vector<int> nl;
       for (auto &lf : lv) {
         pw::ChunkSpec cs; cs.n = rows;
-        if (lf.max_def) { auto p = *gf::presentGen(rows); for (auto x : p) cs.def.push_back(x); }
+        int nolevm = lf.max_def ? *rc::gen::element(0, 0, 0, 1, 2) : 0;   // OPTIONAL column written without a levels array (always / for batches without a null): the writer materialises the levels itself
+        if (lf.max_def) { auto p = nolevm == 1 ? std::vector<uint8_t>(rows, 1) : *gf::presentGen(rows); for (auto x : p) cs.def.push_back(x); }
         size_t nn = 0; for (size_t i = 0; i < rows; i++) if (!lf.max_def || cs.def[i]) nn++;
         cs.values = *rc::gen::container<std::vector<Bytes>>(nn, gf::valueGen(lf.type, lf.type_length));
         if (lf.type == pq::BYTE_ARRAY) for (auto &v : cs.values) if (v.size() > 30) v.resize(30);
         pw::PageSpec pg; pg.end = rows; cs.pages.push_back(pg);
-        rg.push_back(cs); nl.push_back(0);
+        rg.push_back(cs); nl.push_back(nolevm);
         // batch sizes: small, or growing from call to call (a buffer that was flushed and cleared must then grow on its next use)
         std::vector<int> part; size_t left = rows; bool growing = *irange(0, 3) == 0; size_t nextk = 1;
         while (left) { size_t k = growing ? std::min(left, nextk) : (size_t)*irange(1, (int)std::min<size_t>(left, 10)); nextk = nextk * 3 + 1; part.push_back((int)k); left -= k; }
@@ -121,11 +122,12 @@ static rc::Gen<cw::W> growW() {
     std::vector<pw::ChunkSpec> rg; std::vector<std::vector<int>> pc; std::vector<int> nl;
     for (auto &lf : lv) {
       pw::ChunkSpec cs; cs.n = rows;
-      if (lf.max_def) for (size_t i = 0; i < rows; i++) cs.def.push_back((int16_t)(i % 7 != 3));
+      int nolevm = lf.max_def ? *rc::gen::element(0, 0, 1) : 0;
+      if (lf.max_def) for (size_t i = 0; i < rows; i++) cs.def.push_back((int16_t)(nolevm == 1 || i % 7 != 3));
       size_t w8 = lf.type == pq::INT32 ? 4 : 8;
       for (size_t i = 0; i < rows; i++) if (!lf.max_def || cs.def[i]) { Bytes v(w8, 0); v[0] = (uint8_t)i; v[1] = (uint8_t)(i >> 8); cs.values.push_back(v); }
       pw::PageSpec pg; pg.end = rows; cs.pages.push_back(pg);
-      rg.push_back(cs); nl.push_back(0); pc.push_back(part);
+      rg.push_back(cs); nl.push_back(nolevm); pc.push_back(part);
     }
     w.fs.row_groups.push_back(rg); w.parts.push_back(pc); w.nolevels.push_back(nl); w.extra_nrg.push_back(0);
     return w;
